@@ -114,3 +114,47 @@ class K:
         if S.armed:
             _point()
         return self.v != o.v
+
+
+class UH:
+    """Orderable but UNHASHABLE object key (like a list), for the object-keyed families.
+
+    UH(v) orders and compares like the integer v.  While UH.locked is set - i.e. while a call into
+    the implementation is running (vt.ops.apply_sut and the run() helpers of the input-cube checks
+    set it) - hash() raises TypeError exactly as for a list; outside such calls the harness' own
+    bookkeeping (reference models, canonical forms, seen-sets) may hash it.  So an operation that
+    hashes its keys fails for these keys although the containers only need an ordering."""
+    __slots__ = ('v',)
+    locked = False
+
+    def __init__(self, v):
+        self.v = v
+
+    def __hash__(self):
+        if UH.locked:
+            raise TypeError("unhashable type: 'UH'")
+        return hash(('UH', self.v))
+
+    def __repr__(self):
+        return 'UH(%r)' % (self.v,)
+
+    def __reduce__(self):
+        return (UH, (self.v,))
+
+    def __lt__(self, o):
+        return self.v < o.v if isinstance(o, UH) else NotImplemented
+
+    def __gt__(self, o):
+        return self.v > o.v if isinstance(o, UH) else NotImplemented
+
+    def __le__(self, o):
+        return self.v <= o.v if isinstance(o, UH) else NotImplemented
+
+    def __ge__(self, o):
+        return self.v >= o.v if isinstance(o, UH) else NotImplemented
+
+    def __eq__(self, o):
+        return self.v == o.v if isinstance(o, UH) else NotImplemented
+
+    def __ne__(self, o):
+        return self.v != o.v if isinstance(o, UH) else NotImplemented
